@@ -20,7 +20,7 @@ for prop in $props; do
     git -C "$TMP/wt" checkout -q -- . && git -C "$TMP/wt" clean -fdq
     if ! git -C "$TMP/wt" apply "$VERIF/$pf" 2>"$TMP/err"; then echo "FAIL $pf: patch does not apply: $(head -1 "$TMP/err")"; fail=1; continue; fi
     if ! (cd "$TMP/wt" && go build ./... 2>"$TMP/err"); then echo "FAIL $pf: mutated tree does not build: $(head -3 "$TMP/err")"; fail=1; continue; fi
-    VERIF_EVIDENCE_DIR="$TMP/ev" bin/webpcheck -prop "$prop" -tier quick -repo "$TMP/wt" -verif "$VERIF" >"$TMP/out" 2>&1
+    VERIF_EVIDENCE_DIR="$TMP/ev" ${WC:-bin/webpcheck} -prop "$prop" -tier quick -repo "$TMP/wt" -verif "$VERIF" >"$TMP/out" 2>&1
     rc=$?
     ok=1
     if grep -q '^# expect-clean' "$pf"; then
